@@ -147,6 +147,7 @@ void gen_stream(vrng *r, gstream *g, int kind, size_t max_plain)
 	}
 	case SK_LZIP: {
 		unsigned members = vrng_chance(r, 2, 3) ? 1 : 2 + vrng_below(r, 2);
+		g->nstreams = members;
 		int w = snprintf(g->desc, sizeof(g->desc), "lzip[");
 		for (unsigned m = 0; m < members; ++m) {
 			vbuf p = {0};
